@@ -292,6 +292,8 @@ def check(run, prog):
     cases = [
         ([], ["src/deep", "inc/i.h"]), (["src", "a.c", "b.h"], ["b.h", "src/m.c"]), (["src"], []), (["a.c", "b.h"], ["a.c", "b.h"]),
         (["src", "a.c"], ["src"]), (["a.c", "a.c", "b.h"], ["b.h"]), (["inc", "a.c"], ["a.c"]),
+        # a file re-included by a negated pattern (`*.c` then `!a.c`) is not ignored
+        (["a.c", "b.h"], ["!a.c"]), (["src"], ["src/deep", "!src/m.c"]), ([], ["!b.h", "a.c"]),
     ]
     blank_cases = [
         (["sp ace.c", "a.c", "b.h"], ["sp ace.c"]), (["src/deep"], ["src/deep/d e.h"]), (["sp ace.c", "ace.c.h", "sp"], ["sp ace.c"]),
